@@ -1,7 +1,18 @@
 #!/bin/sh
 # Build the verification harness from files on disk only (offline).  Run once after a fresh restore.
+# Every check rebuilds what it needs itself (cargo is incremental), so this only warms the caches.
 set -e
 cd "$(dirname "$0")/harness"
-export CARGO_NET_OFFLINE=true
+export CARGO_NET_OFFLINE=true CARGO_TERM_COLOR=never
+T=/verif/target
 cargo build --offline --profile vdbg -p itv
-cargo build --offline --profile vrel -p itv
+cargo build --offline --profile vrel -p itv -p itv-c15
+for p in vdbg vrel; do
+  cargo build --offline --profile $p -p itv --no-default-features --features std,deser --target-dir $T/deser
+done
+cargo build --offline --profile vrel -p itv --no-default-features --features std,macros --target-dir $T/f-std-macros
+cargo build --offline --profile vrel -p itv --no-default-features --features "" --target-dir $T/f-nostd
+cargo build --offline --profile vrel -p itv --no-default-features --features std --target-dir $T/f-std
+cargo build --offline --profile vrel -p itv --no-default-features --features std,macros,par_iter,deser --target-dir $T/f-std-macros-par_iter-deser
+cargo build --offline --profile vrel -p itv-core -p itv-c18-static -p itv-c18 --target-dir $T/c18
+echo "setup done"
